@@ -1501,3 +1501,56 @@ pub fn c08_surplus_codewords(seed: u64) -> Phase {
         wall_cap_s: 0,
     }
 }
+
+/// One giant segment of a single encodation mode: a Base256 segment with length 0 ("rest of the symbol"), a C40, Text,
+/// X12 and EDIFACT segment that is never unlatched, a run of digit pairs and a run of upper-shifted characters, each
+/// of 14.5, 17 and 29.5 million codewords (149 x (offset within the segment) crossing 2^31 and 2^32; counters that
+/// restart at a mode switch do not restart here).
+pub fn c05_giant_segments() -> Phase {
+    const LENS: [usize; 3] = [14_500_000, 17_000_000, 29_500_000];
+    const NMODES: u64 = 7;
+    let total = LENS.len() as u64 * NMODES;
+    let make = move |_ctx: &Ctx, i: u64| -> Trace {
+        let n = LENS[(i / NMODES) as usize];
+        let mode = i % NMODES;
+        let mut data: Vec<u8> = Vec::with_capacity(n + 4);
+        match mode {
+            0 => {
+                data.push(231);
+                data.push(44); // length 0 after un-randomising at position 2: the segment runs to the end
+                data.resize(n, 0x5A);
+            }
+            1 | 2 | 3 => {
+                data.push([230u8, 239, 238][(mode - 1) as usize]);
+                // pairs encoding three ordinary values
+                let pair = c40_triple(14, 15, 16);
+                while data.len() + 2 <= n {
+                    data.extend_from_slice(&pair);
+                }
+            }
+            4 => {
+                data.push(240);
+                while data.len() + 3 <= n {
+                    data.extend_from_slice(&[0x04, 0x20, 0xC4]); // four values, none of them the unlatch
+                }
+            }
+            5 => data.resize(n, 142),
+            _ => {
+                while data.len() + 2 <= n {
+                    data.extend_from_slice(&[235, 0x45]);
+                }
+            }
+        }
+        Trace { prop: "C05".into(), producer: Producer::Stream { data }, faults: vec![] }
+    };
+    Phase {
+        source: Source::Sweep { name: "sweep_giant_single_mode_segments".into(), prop: "C05".into(), make: Box::new(make) },
+        runs: total,
+        wall_cap_s: 0,
+    }
+}
+
+fn c40_triple(c1: u16, c2: u16, c3: u16) -> [u8; 2] {
+    let v = 1600 * c1 + 40 * c2 + c3 + 1;
+    [(v >> 8) as u8, (v & 0xFF) as u8]
+}
